@@ -318,6 +318,104 @@ pub fn check_c08(sc: &ProgressCase, cx: &mut Cx) -> Result<Result<(), String>, v
     Ok(Ok(()))
 }
 
+// ---- C08, stratum "asymmetric three signals": blocking_flush(T) returns within T however the signals differ
+
+#[derive(Serialize, Deserialize, Debug, Clone, PartialEq)]
+pub struct AsymCase {
+    pub wire: Wire,
+    pub gzip: bool,
+    /// acknowledged late: its first `stalls` attempts are stalled past the (scaled) request timeout
+    pub slow: Signal,
+    /// never acknowledged: every attempt is stalled
+    pub stuck: Signal,
+    pub stalls: u8,
+    /// the flush timeout in ms (NOT scaled by the hook divisor)
+    pub t_ms: u32,
+}
+
+fn asym_case(fixed: Option<(Signal, Signal)>) -> BoxedStrategy<AsymCase> {
+    let roles = match fixed {
+        Some(r) => Just(r).boxed(),
+        None => prop::sample::select(vec![
+            (Signal::Logs, Signal::Traces),
+            (Signal::Logs, Signal::Metrics),
+            (Signal::Traces, Signal::Logs),
+            (Signal::Traces, Signal::Metrics),
+            (Signal::Metrics, Signal::Logs),
+            (Signal::Metrics, Signal::Traces),
+        ])
+        .boxed(),
+    };
+    (wires(), any::<bool>(), roles, 6_000u32..=7_000)
+        .prop_map(|(wire, gzip, (slow, stuck), t_ms)| AsymCase { wire, gzip, slow, stuck, stalls: 3, t_ms })
+        .boxed()
+}
+
+/// One measurement: how long `blocking_flush(T)` took, and what it said.
+fn asym_measure(sc: &AsymCase) -> Result<(Duration, bool), String> {
+    timing::ensure();
+    let c = start_collector(sc.wire)?;
+    c.script(sc.slow, vec![Decision::Stall; sc.stalls as usize]);
+    c.set_default(sc.stuck, Decision::Stall);
+    let otlp = build(&c, &config_only(sc.wire, sc.gzip, [true; 3]));
+    let base = next_base();
+    for s in Signal::ALL {
+        emit_to(&otlp, s, plug_id(base, s), 1);
+    }
+    let t = Duration::from_millis(sc.t_ms as u64);
+    let started = std::time::Instant::now();
+    let ok = otlp.blocking_flush(t);
+    let took = started.elapsed();
+    c.release_stalls();
+    c.shutdown();
+    drop(otlp);
+    Ok((took, ok))
+}
+
+pub fn check_c08_asym(sc: &AsymCase, cx: &mut Cx, note: impl Fn(String)) -> Result<Result<(), String>, vcore::Fail> {
+    let _permit = Permit::acquire();
+    cx.class("otlp-progress:three-signals-asymmetric");
+    cx.class(wire_label(sc.wire));
+    // flush order is logs, traces, metrics: "a slow one, then a quick one, then the stuck one" is the shape in
+    // which a budget that is not carried across signals shows
+    let fast = Signal::ALL.into_iter().find(|s| *s != sc.slow && *s != sc.stuck).unwrap();
+    cx.class_if(sc.slow < fast && fast < sc.stuck, "otlp-progress:slow-then-quick-then-stuck");
+    cx.nontrivial(true);
+    let t = Duration::from_millis(sc.t_ms as u64);
+    // slack: large against scheduling noise, small against an overrun by the slow signal's ~4.9 s
+    let limit = t + Duration::from_millis(2_500);
+    let mut took_all = Vec::new();
+    for attempt in 0..3 {
+        let (took, ok) = match asym_measure(sc) {
+            Ok(m) => m,
+            Err(e) => return Ok(Err(e)),
+        };
+        took_all.push(took);
+        if attempt == 0 {
+            cx.class(if ok { "otlp:flush-true" } else { "otlp:flush-false" });
+        }
+        if took <= limit {
+            if attempt > 0 {
+                // an overrun that does not repeat is the machine, not emit
+                note(format!("otlp-e2e-progress: blocking_flush({t:?}) overran once ({:?}) and then did not ({took:?}): ignored", took_all[0]));
+                cx.dont_care();
+            }
+            return Ok(Ok(()));
+        }
+    }
+    cx.fail(
+        "C08/otlp-flush-overran-timeout",
+        format!(
+            "blocking_flush({t:?}) took {took_all:?} in three runs of the same case (limit {limit:?}) with all three signals configured: {:?} acknowledged only after {} stalled attempts (~{} ms), {fast:?} at once, {:?} never",
+            sc.slow,
+            sc.stalls,
+            sc.stalls as u64 * timing::request_timeout_ms() + timing::backoff_total_ms(sc.stalls as u32),
+            sc.stuck
+        ),
+    )?;
+    Ok(Ok(()))
+}
+
 /// Registers the OTLP clause of C08 (`otlp-e2e-progress-<n>`): call from the c08 binary's session body.
 pub fn register_c08(s: &Session) {
     for k in ["grpc-stall-after-headers", "grpc-stall-mid-body", "grpc-wedged-connection", "stall"] {
@@ -338,7 +436,19 @@ pub fn register_c08(s: &Session) {
         (None, None),
     ];
     // every case costs about one scaled request timeout (1.5 s) of sleeping: run instances side by side
+    s.require("otlp-progress:three-signals-asymmetric", if s.quick() { 3 } else { 60 });
+    s.require("otlp-progress:slow-then-quick-then-stuck", if s.quick() { 2 } else { 40 });
+    let asym_cases = s.n(1, 20);
     std::thread::scope(|scope| {
+        // each of these sleeps through one whole flush timeout (6-7 s, not scaled): one case per instance
+        for (inst, fixed) in [Some((Signal::Logs, Signal::Metrics)), Some((Signal::Logs, Signal::Metrics)), None].into_iter().enumerate() {
+            scope.spawn(move || {
+                let guard = ShrinkGuard::new(0, 0);
+                s.gen(&format!("otlp-e2e-progress-asym-{inst}"), asym_cases, move || asym_case(fixed), |c, cx| {
+                    guard.run(s, cx, |cx| res(check_c08_asym(c, cx, |n| s.note(n)), |p| s.inconclusive(format!("harness: {p}"))))
+                });
+            });
+        }
         for (inst, fixed) in strata.into_iter().enumerate() {
             scope.spawn(move || {
                 let guard = ShrinkGuard::new(12, 45);
